@@ -17,7 +17,7 @@ theorem alloc_new_mem {a : Alloc} {T} (req : Nat) (h : AInv a T) :
     obtain ⟨f1, _, _, f4, _⟩ := tryAlloc_fields ht
     unfold memAt; rw [commit_mem, tryAlloc_mem ht]
     exact hq (by rw [← f1]; simpa using e) hf j (by rw [← f4]; simpa using hj)
-  · intro blocks p n size _ _ _ _ _ _ hf k hk
+  · intro blocks p n size _ _ _ _ _ _ _ hf k hk
     unfold memAt
     simp only [markAllocated_mem, markAllocated_areaSize] at hk ⊢
     simp only [newBlock, Block.clear] at hk ⊢
